@@ -713,13 +713,6 @@ func (w *Worker) doTaskAttempt(
 		case RecordFlagNack:
 			err := acker.Nack(ctx, subBatch, t.ID())
 			if err != nil {
-				if _, ok := t.(*ProcessorTask); ok {
-					// A processor error that the DLQ did not absorb is
-					// deterministic: a restart re-reads the same record and
-					// fails on it again, so recovering would loop forever. Same
-					// classification as the default engine (stream.ProcessorNode).
-					return cerrors.FatalError(err)
-				}
 				return err
 			}
 		case RecordFlagRetry:
@@ -1035,9 +1028,42 @@ func (w *Worker) Nack(ctx context.Context, batch *Batch, taskID string) error {
 	}
 
 	if err != nil {
-		return cerrors.Errorf("failed to nack %d records: %w", len(batch.records)-n, err)
+		err = cerrors.Errorf("failed to nack %d records: %w", len(batch.records)-n, err)
+		if w.isProcessorTask(taskID) {
+			// A processor error that the DLQ did not absorb is deterministic:
+			// a restart re-reads the same record and fails on it again, so
+			// recovering would loop forever. Same classification as the
+			// default engine (stream.ProcessorNode). Decided here by the task
+			// that nacked, not by the caller: in a destination fan-out the nack
+			// is forwarded by whichever branch votes last, which may well be a
+			// branch without any processor.
+			return cerrors.FatalError(err)
+		}
+		return err
 	}
 	return nil
+}
+
+// isProcessorTask reports whether taskID belongs to a processor task of this
+// worker's task tree (including a shared tail).
+func (w *Worker) isProcessorTask(taskID string) bool {
+	var find func(n *TaskNode) bool
+	find = func(n *TaskNode) bool {
+		if n == nil {
+			return false
+		}
+		if n.Task.ID() == taskID {
+			_, ok := n.Task.(*ProcessorTask)
+			return ok
+		}
+		for _, next := range n.Next {
+			if find(next) {
+				return true
+			}
+		}
+		return false
+	}
+	return find(w.FirstTask)
 }
 
 // isClosedSourceStream reports whether err is the sentinel a source connector's
